@@ -5,6 +5,7 @@ import DuckModel.Wire
 import DuckModel.Parser
 import DuckModel.Spec.Render
 import DuckModel.Scripted
+import DuckModel.DynScripted
 import DuckModel.Registry
 import DuckModel.Sdk.Condition
 import DuckModel.Spec.Template
@@ -130,6 +131,25 @@ def handle (toks : List String) : Option String :=
         | .reachedEnd => "ok | VARS " ++ encVars rs.vars ++ logs
         | .halted => "ok | VARS " ++ encVars rs.vars ++ logs
         | .outOfFuel => "fuel" ++ logs
+    | _, _, _, _, _ => bad
+  | ["runm", specs, queue, vars, fuel, texts] =>
+    -- multi-run history on one Context with a command table that commands can change
+    -- (DynScripted.lean); specs = `S/<name>/<aliases>/<tag>` joined by `;`, texts joined by `;`
+    match (specs.splitOn ";").mapM decRegOp, decQueue queue, decVars vars, fuel.toNat?, (texts.splitOn ";").mapM decStr with
+    | some ops, some queue, some vars, some fuel, some texts =>
+      let cs := ops.filterMap fun o => match o with | .set c => some c | _ => none
+      let st : DynSt := { queue := queue, reg := dynRegister {} cs }
+      let (outs, s) := dynRuns fuel texts vars st
+      let log := ";".intercalate (s.log.map fun l => encStr l.name ++ "@" ++ toString l.line ++ encList l.args)
+      let encOut : DynOutcome → String
+        | .ok v => "ok VARS " ++ encVars v
+        | .fail msg mi => "fail " ++ (if "crash#".toList.isPrefixOf msg then encStr msg else "runner-msg") ++ " " ++ encMeta mi
+        | .parseErr e => "PARSEERR " ++ encPErr e.kind ++ " " ++ encMeta e.mi
+        | .fuel => "fuel"
+      let alive := outs.all fun o => match o with | .ok _ => true | _ => false
+      " || ".intercalate (outs.map encOut) ++ " | LOG " ++ log ++
+        (if alive then " | STATE " ++ (let e := sortStrings (s.store.map fun (k, v) => encStr k ++ "=" ++ encStr v); if e.isEmpty then "-" else ",".intercalate e) ++
+          " | NAMES " ++ encList s.reg.names else "")
     | _, _, _, _, _ => bad
   | ["reg", ops] =>
     match (if ops = "-" then some [] else (ops.splitOn ";").mapM decRegOp) with
